@@ -1,14 +1,30 @@
 import Autd3.Model.Group
 import Autd3.Drv.Common
 /-! `group` stream:
-`gs n=<devices> en=<bits> km=<key char per device, '-' = none> map=<k=g<id>[!] | k=m<id>.<len>[!]>,…
- order=<k,k,…> fault=<none|s<i>|r<i>> api=<sync|sync-ctl|async|async-ctl>` → `R <result>`;
-then `flags` → `E <before>><after>`, `visited` → `V …`, `log` → `F …`, `obs` → `O …` about that call. -/
+`gs n=<devices> en=<bits> km=<key char per device, '-' = none>
+ map=<k=g<id>[!][@t<ms>p<thr|max>] | k=m<id>.<len>[!][@t<ms>p<thr|max>]>,…
+ order=<k,k,…> fault=<none|s<i>|r<i>|d<k>|n<s>> api=<sync|sync-ctl|async|async-ctl>
+ [to=<none|ms> pm=<auto|on|off> [cont=1]]` → `R <result>`;
+`ps n= en= dg=<datagram> fault=<none|s<i>|r<i>> api= to= pm= [cont=1]` (plain `send`) → `R <result>`;
+then `flags` → `E <before>><after>`, `visited` → `V …`, `log` → `F …`, `obs` → `O …`, `opt` → `P …`
+about that call. `cont=1`: the call runs on the controller of the previous `gs`/`ps` line (device
+read-back accumulates); otherwise on a fresh one.
+
+`@t<ms>p<thr>` is the datagram's `option()` (default: what `derive(Gain)` / `derive(Modulation)`
+declare: 20 ms / 4 and 200 ms / usize::MAX); `to`/`pm` are `SenderOption::{timeout, parallel}`.
+`d<k>`: every acknowledgement arrives with the (k+1)-th receive; `n<s>`: from transmission `s` on no
+acknowledgement arrives. Both are resolved here with `Group.aggOptions`/`effTimeout`: under a zero
+effective timeout nothing is waited for, otherwise `d<k>` costs k extra receives per frame set and
+`n<s>` ends the call like a failing receive, reported as `err:confirm`. -/
 namespace Autd3.Drv.C13
 open Autd3.Group Autd3.Drv
 
 structure St where
   last : Option (Geometry × Outcome) := none
+  /-- per device of the current controller: read-back, and the device tag of the last gain frame -/
+  obs : List (Obs × Nat) := []
+  confirm : Bool := false
+  opt : String := "P - final=- polls=-"
 
 def init : St := {}
 
@@ -39,6 +55,41 @@ def parseDg (t : String) : Option Dg :=
     | _ => none
   | _ => none
 
+def defaultOpt (d : Dg) : DgOpt :=
+  match d.kind with
+  | .gain => { timeout := 20, parThr := 4 }
+  | .mod => { timeout := 200, parThr := usizeMax }
+
+def parseOptTok (s : String) : Option DgOpt :=
+  match s.toList with
+  | 't' :: rest =>
+    match (String.ofList rest).splitOn "p" with
+    | [a, b] => do
+      let t ← a.toNat?
+      let p ← if b = "max" then some usizeMax else b.toNat?
+      pure { timeout := t, parThr := p }
+    | _ => none
+  | _ => none
+
+def parseDgO (t : String) : Option (Dg × DgOpt) :=
+  match t.splitOn "@" with
+  | [b] => (parseDg b).map fun d => (d, defaultOpt d)
+  | [b, o] => do
+    let d ← parseDg b
+    let o ← parseOptTok o
+    pure (d, o)
+  | _ => none
+
+def parseMapO (s : String) : Option (List (Key × Dg × DgOpt)) :=
+  if s = "-" then some []
+  else (s.splitOn ",").mapM fun e =>
+    match e.splitOn "=" with
+    | [k, d] => do
+      let k ← k.toNat?
+      let d ← parseDgO d
+      pure (k, d)
+    | _ => none
+
 def parseMap (s : String) : Option (List (Key × Dg)) :=
   if s = "-" then some []
   else (s.splitOn ",").mapM fun e =>
@@ -59,6 +110,27 @@ def parseFault (s : String) : Option Fault :=
     | 'r' :: r => (String.ofList r).toNat?.map Fault.recv
     | _ => none
 
+/-- link behaviour of a line: a model fault, delayed acknowledgements, no acknowledgements -/
+inductive LFault
+  | model (f : Fault)
+  | delay (k : Nat)
+  | noack (s : Nat)
+
+def parseLFault (s : String) : Option LFault :=
+  match parseFault s with
+  | some f => some (.model f)
+  | none =>
+    match s.toList with
+    | 'd' :: r => (String.ofList r).toNat?.map LFault.delay
+    | 'n' :: r => (String.ofList r).toNat?.map LFault.noack
+    | _ => none
+
+def parseTo (s : String) : Option (Option Nat) :=
+  if s = "none" then some none else s.toNat?.map some
+
+def parsePm (s : String) : Option ParMode :=
+  if s = "auto" then some .auto else if s = "on" then some .on else if s = "off" then some .off else none
+
 def bitsStr (l : List Bool) : String := String.ofList (l.map fun b => if b then '1' else '0')
 
 def joinOr (xs : List String) (sep : String) (empty : String) : String :=
@@ -77,10 +149,10 @@ def errStr : Err → String
 
 def frameStr (f : Frame) : String :=
   match f.dg.kind with
-  | .gain => s!"{f.dev}:g{f.dg.id}.{maskNat f.seen % 256}"
+  | .gain => s!"{f.dev}:g{f.dg.id}.{maskNat f.seen % 256}.{f.dev + 1}"
   | .mod => s!"{f.dev}:m{f.dg.id}#{f.idx}" ++ (if f.idx + 1 = f.dg.nframes then "e" else "")
 
-def obsStr (o : Obs) : String := s!"g{o.gId}.{o.gMask}/m{o.mFirst}.{o.mLen}"
+def obsStr (o : Obs × Nat) : String := s!"g{o.1.gId}.{o.1.gMask}.{o.2}/m{o.1.mFirst}.{o.1.mLen}"
 
 /-- the iteration order as a function on the filter list; `none` unless `order` is a permutation of its keys -/
 def permOf (order : List Key) (fs : List (Key × Filter)) : Option (List (Key × Filter)) :=
@@ -89,35 +161,127 @@ def permOf (order : List Key) (fs : List (Key × Filter)) : Option (List (Key ×
     some (order.filterMap fun k => (fs.lookup k).map fun f => (k, f))
   else none
 
-def runCase (ws : List String) : Option (Geometry × Outcome) := do
+structure Ans where
+  geo : Geometry
+  o : Outcome
+  confirm : Bool
+  opt : String
+  cont : Bool
+
+def baseKeys : List String := ["n", "en", "km", "map", "order", "fault", "api"]
+def plainKeys : List String := ["n", "en", "dg", "fault", "api", "to", "pm"]
+
+/-- first transmission from `s` on that carries a new frame -/
+def firstAwaited (log : List (List Frame)) (s : Nat) : Option Nat :=
+  ((List.range log.length).filter fun j => s ≤ j ∧ !(log.getD j []).isEmpty).head?
+
+def pollsStr (log : List (List Frame)) (lf : LFault) (eff : Nat) (confirm : Bool) : String :=
+  joinOr ((List.range log.length).map fun j =>
+    if confirm ∧ j + 1 = log.length then "*"
+    else match lf with
+      | .delay k => if eff = 0 ∨ (log.getD j []).isEmpty then "1" else toString (k + 1)
+      | _ => "1") "," "-"
+
+def runCase (ws : List String) : Option Ans := do
   let kvs ← ws.mapM kv
   let get (k : String) : Option String := kvs.lookup k
-  guard (kvs.map (·.1) = ["n", "en", "km", "map", "order", "fault", "api"])
+  let keys := kvs.map (·.1)
+  guard (keys = baseKeys ∨ keys = baseKeys ++ ["to", "pm"] ∨ keys = baseKeys ++ ["to", "pm", "cont"])
   let n ← (← get "n").toNat?
   let en ← parseBits (← get "en")
   let km ← parseKm (← get "km")
-  let dmap ← parseMap (← get "map")
+  let dmapO ← parseMapO (← get "map")
   let order ← parseList (← get "order")
-  let fault ← parseFault (← get "fault")
+  let lf ← parseLFault (← get "fault")
   let api ← get "api"
+  let to ← match get "to" with | some s => parseTo s | none => some (some 5)
+  let pm ← match get "pm" with | some s => parsePm s | none => some .off
+  let cont ← match get "cont" with | some s => (if s = "1" then some true else none) | none => some false
   guard (en.length = n ∧ km.length = n ∧ 0 < n)
+  let dmap : List (Key × Dg) := dmapO.map fun e => (e.1, e.2.1)
   guard ((dmap.map (·.1)).Nodup)
   guard (["sync", "sync-ctl", "async", "async-ctl"].contains api)
+  -- the shortcut apis run with the default sender option
+  guard (¬ (api = "sync-ctl" ∨ api = "async-ctl") ∨ get "to" = none ∨ (to = none ∧ pm = .auto))
   let geo := mkGeometry en
   let kmf : Nat → Option Key := fun i => (km[i]?).join
   match buildFilters geo kmf with
-  | .error e => pure (geo, { result := .error e, geo := geo, log := [], visited := [] })
+  | .error e => pure { geo := geo, o := { result := .error e, geo := geo, log := [], visited := [] }, confirm := false, opt := "P - final=- polls=-", cont := cont }
   | .ok fs =>
     let fs' ← permOf order fs
-    pure (geo, groupSendWith true fs' geo dmap fault)
+    let o0 := groupSendWith true fs' geo dmap .none
+    let optOf (k : Key) : Option DgOpt := (dmapO.lookup k).map (·.2)
+    let agg := aggOptions (o0.visited.filterMap optOf)
+    let eff := effTimeout to agg
+    let (fault, confirm) : Fault × Bool :=
+      match lf with
+      | .model f => (f, false)
+      | .delay _ => (.none, false)
+      | .noack s =>
+        if eff = 0 then (.none, false)
+        else match firstAwaited o0.log s with
+          | some j => (.recv j, true)
+          | none => (.none, false)
+    let o := groupSendWith true fs' geo dmap fault
+    let pOf (k : Key) : String :=
+      let size := ((fs'.lookup k).getD []).count true
+      let thr := ((optOf k).map (·.parThr)).getD usizeMax
+      s!"{k}:{if pm.isParallel size thr then 1 else 0}"
+    let reached : Bool :=
+      match o.result with
+      | .error (.unknownKey _) => false
+      | .error (.unusedKey _) => false
+      | .error (.gen _) => false
+      | .error .panic => false
+      | _ => true
+    let final := if reached ∧ !fs'.isEmpty then (if pm.isParallel (numDevices geo) agg.parThr then "1" else "0") else "-"
+    let opt := "P " ++ joinOr (o.visited.map pOf) "," "-" ++ s!" final={final} polls=" ++ pollsStr o.log lf eff confirm
+    pure { geo := geo, o := o, confirm := confirm, opt := opt, cont := cont }
+
+def runPlain (ws : List String) : Option Ans := do
+  let kvs ← ws.mapM kv
+  let get (k : String) : Option String := kvs.lookup k
+  let keys := kvs.map (·.1)
+  guard (keys = plainKeys ∨ keys = plainKeys ++ ["cont"])
+  let n ← (← get "n").toNat?
+  let en ← parseBits (← get "en")
+  let (d, dopt) ← parseDgO (← get "dg")
+  let fault ← parseFault (← get "fault")
+  let to ← parseTo (← get "to")
+  let pm ← parsePm (← get "pm")
+  let cont ← match get "cont" with | some s => (if s = "1" then some true else none) | none => some false
+  guard (en.length = n ∧ 0 < n)
+  let geo := mkGeometry en
+  let r := send geo d fault
+  let par := pm.isParallel (numDevices geo) dopt.parThr
+  let _ := to
+  let opt := s!"P 0:{if par then 1 else 0} final=" ++ (if (devices geo).isEmpty ∨ d.genFail then "-" else if par then "1" else "0")
+    ++ " polls=" ++ joinOr (r.2.map fun _ => "1") "," "-"
+  pure { geo := geo, o := { result := r.1, geo := geo, log := r.2, visited := [] }, confirm := false, opt := opt, cont := cont }
+
+/-- read-back of every device after the frames of `log`, starting from `prev` -/
+def foldObs (geo : Geometry) (prev : List (Obs × Nat)) (log : List (List Frame)) : List (Obs × Nat) :=
+  geo.map fun d =>
+    let p := prev.getD d.idx (Obs.init, 0)
+    (devFrames log d.idx).foldl
+      (fun acc f => (acc.1.apply f, match f.dg.kind with | .gain => f.dev + 1 | .mod => acc.2)) p
+
+def answer (st : St) (a : Option Ans) : St × String :=
+  match a with
+  | some a =>
+    if a.cont ∧ st.obs.length ≠ a.geo.length then ({ }, "bad-op")
+    else
+      let prev := if a.cont then st.obs else []
+      ({ last := some (a.geo, a.o), obs := foldObs a.geo prev a.o.log, confirm := a.confirm, opt := a.opt },
+       "R " ++ (match a.o.result with
+                | .ok _ => "ok"
+                | .error e => if a.confirm ∧ e = .link then "err:confirm" else errStr e))
+  | none => ({ }, "bad-op")
 
 def step (st : St) (line : String) : St × String :=
   match words line with
-  | "gs" :: ws =>
-    match runCase ws with
-    | some (geo, o) =>
-      ({ last := some (geo, o) }, "R " ++ (match o.result with | .ok _ => "ok" | .error e => errStr e))
-    | none => ({ last := none }, "bad-op")
+  | "gs" :: ws => answer st (runCase ws)
+  | "ps" :: ws => answer st (runPlain ws)
   | ["flags"] =>
     match st.last with
     | some (geo, o) => (st, s!"E {bitsStr (geo.map (·.enable))}>{bitsStr (o.geo.map (·.enable))}")
@@ -132,7 +296,11 @@ def step (st : St) (line : String) : St × String :=
     | none => (st, "bad-op")
   | ["obs"] =>
     match st.last with
-    | some (geo, o) => (st, "O " ++ " ".intercalate (geo.map fun d => obsStr (devObs o.log d.idx)))
+    | some _ => (st, "O " ++ " ".intercalate (st.obs.map obsStr))
+    | none => (st, "bad-op")
+  | ["opt"] =>
+    match st.last with
+    | some _ => (st, st.opt)
     | none => (st, "bad-op")
   | _ => (st, "bad-op")
 
